@@ -197,6 +197,29 @@ def part_a(sh: Shard, seed, n):
             sh.violation(f"C19:a:mismatch:{'+'.join(bad)}", f"shell snapshot does not parse back: {bad} differ (e.g. {bad[0]}: got {got[bad[0]]!r:.80} expected {exp[bad[0]]!r:.80})", wit)
         else:
             sh.count("shell_roundtrips_ok")
+        if i % 7 == 6 and not bad:
+            # the same path is written again - other content, same size, same modification time (a copy
+            # that preserves times, a coarse-grained filesystem): parsing reads the file, not a memory of it
+            st_ = os.stat(path)
+            b2 = bytearray(block)
+            idxs = [k for k in range(1024) if b2[k] >= 16]
+            if len(idxs) >= 4:
+                for k in r.sample(idxs, 3):
+                    b2[k] = 16 + (b2[k] - 16 + r.randrange(1, 239)) % 240  # another two-digit hex value
+                spa.struct.set_status_block(bytes(b2))
+                try:
+                    with Capture(path, logging.INFO):
+                        shell.do_snapshot(name)
+                    same_size = os.stat(path).st_size == st_.st_size
+                    os.utime(path, ns=(st_.st_atime_ns, st_.st_mtime_ns))
+                    again = GeckoSnapshot.parse_log_file(path)
+                    sh.evaluations += 1
+                    sh.count("files_rewritten_with_same_size_and_time" if same_size else "files_rewritten_with_same_time")
+                    if len(again) != 1 or again[0].bytes != bytes(b2):
+                        sh.violation("C19:a:stale-parse", f"a log file written again at the same path (same modification time{', same size' if same_size else ''}, other block) parses to {'the PREVIOUS block' if again and again[0].bytes == block else 'something else'}", dict(wit, same_size=same_size))
+                except Exception as e:
+                    d = describe_exc(e)
+                    sh.violation("C19:a:raise", f"re-written snapshot capture/parse raised {d['type']}: {d['msg']}", dict(wit, exc=d))
         sh.see("block_styles_a", style)
         sh.nontrivial(f"a:{seed}:{i}")
     try:
